@@ -7,6 +7,7 @@ from . import inherit_spec as IS
 from . import c06
 
 ID = 'C07'
+ENGINE_B = {'template': 't_inherit', 'kinds': ['forward_', 'asref_'], 'max_quick': 6, 'max_thorough': 32}
 EXPLANATION = ('Template t_inherit with impl blocks on the bases and on the derived type (public or private), one or two bases with or without '
                'vftables, name clashes between the bases\' functions and between base virtual functions and the derived table, and a '
                'second-level derived type.  For each leaf the solver shows that the path condition admits exactly one description; the '
@@ -24,7 +25,7 @@ def bounds(tier):
 
 
 def slices(tier, rng):
-    return [Slice('assoc-ps%d' % ps, 't_inherit', 14, lambda a, ps=ps: c06.assume(a, ps, 'assoc'), opts={'must_reach': ['ok']})
+    return [Slice('assoc-ps%d' % ps, 't_inherit', 15, lambda a, ps=ps: c06.assume(a, ps, 'assoc'), opts={'must_reach': ['ok']})
             for ps in (4, 8)]
 
 
@@ -68,7 +69,7 @@ def leaf_queries(I, a, leaf, py, sl):
             compare_assoc(cpy, M, problems)
     elif M['accept']:
         problems.append('rejected although the reference accepts')
-    this = z3.And(*[a[i] == z3.BitVecVal(wit[i], 64) for i in range(14)])
+    this = z3.And(*[a[i] == z3.BitVecVal(wit[i], 64) for i in range(15)])
     qs.append(Query('functions-match-reference:' + ('; '.join(problems)[:300] if problems else 'ok'), this if problems else z3.BoolVal(False)))
     return qs
 
